@@ -21,7 +21,7 @@ from . import env  # noqa: F401
 from graphslam.edge.base_edge import BaseEdge
 from graphslam.util import upper_triangular_matrix_to_full_matrix
 
-SPECIAL_LITERALS = [(".5", 0.5), ("5.", 5.0), ("1E3", 1000.0), ("-.25", -0.25), ("+2", 2.0), ("1e-3", 0.001), ("0", 0.0), ("-0", -0.0), ("00.5", 0.5), ("2.5e+0", 2.5), ("-1E-2", -0.01), ("7", 7.0), ("-3", -3.0), ("1e0", 1.0)]
+SPECIAL_LITERALS = [(".5", 0.5), ("5.", 5.0), ("1E3", 1000.0), ("-.25", -0.25), ("+2", 2.0), ("1e-3", 0.001), ("0", 0.0), ("-0", -0.0), ("00.5", 0.5), ("2.5e+0", 2.5), ("-1E-2", -0.01), ("7", 7.0), ("-3", -3.0), ("1e0", 1.0), ("1.e-3", 0.001), ("-7.", -7.0), ("+.5E1", 5.0), ("3.E2", 300.0)]
 
 
 # ----------------------------------------------------------------------------- registered custom edge types
